@@ -108,6 +108,7 @@ def run_case(pd, case, cfg, parts, asm, ev_out, tid, use_update_all=False, rate=
     ev_out.append(dict(id=len(ev_out), ev="Start", tid=tid))
     t_abs = t_origin   # the flow maps are functions of elapsed time only: any time origin gives the same solution
     logdet = 0.0
+    returned = []      # every returned F with a copy taken at once: a result must not change when later calls are made
     for step in case["steps"]:
         T = step["T"][0] / step["T"][1] / rate
         getL, getx = callables(step, t_abs, rate)
@@ -130,6 +131,7 @@ def run_case(pd, case, cfg, parts, asm, ev_out, tid, use_update_all=False, rate=
                 e["det_e9"] = 0
                 ev_out.append(e)
                 return None
+            returned.append((F, np.array(F, dtype=float, copy=True)))
             gi0 = evalterm.ev(step["gint"], dict(s=s0 * rate))
             gi1 = evalterm.ev(step["gint"], dict(s=s1 * rate))
             e["dstrain_e6"] = cap(emax * (gi1 - gi0) * 1e6)
@@ -141,6 +143,9 @@ def run_case(pd, case, cfg, parts, asm, ev_out, tid, use_update_all=False, rate=
                 e["rel"] = float(np.abs(F - exact).max() / np.abs(exact).max())
             ev_out.append(e)
         t_abs += T
+    stale = [k for k, (obj, cp) in enumerate(returned) if not np.array_equal(np.asarray(obj, dtype=float), cp)]
+    e = dict(id=len(ev_out), ev="Relate", clause="returned-F-changed-by-a-later-call", rel_e9=cap(1e9 if stale else 0), rel=1.0 if stale else 0.0, n1=0, s1_e6=0, n2=0, s2_e6=0)
+    ev_out.append(e)
     return F
 
 
@@ -235,7 +240,7 @@ def main(tier):
         fams[fam] = fams.get(fam, 0) + 1
         for e in events[start:]:
             meta[e["id"]] = dict(kind="closed-form", family=fam, config=list(cfg), parts=parts, update_all=ua, asm=asm[0], case_index=int(ci), rate=rate, t_origin=t_origin, layout=layout)
-            if "rel" in e:
+            if "rel" in e and e["ev"] == "Update":
                 chk.maximum("relative_error_vs_exact", e.pop("rel"))
         chk.count(("case", int(ci), j % len(CONFIGS), parts, ua))
     chk.cov["families_exercised"] = fams
